@@ -251,6 +251,55 @@ CHECKS["C13"] = dict(
 NOT_BUILT_REASON = "check not built yet in this round (planned, see DESIGN.md section 4); not claimed until it is registered"
 
 
+# What later rounds added to each check (state carried between calls: caches, aliasing, import order, several
+# objects or sequences alive at once, exotic argument types, clocks); appended to the description above.
+ADDED = {
+    "C01": " Also: import/declaration histories in fresh interpreters (decode before importing, leaf modules only, drivers "
+           "only, constructions before the first decode) must reproduce the full-import fingerprints; every decode is "
+           "repeated right after ~500 other operations incl. caller-edited results; pairs of results kept alive; a "
+           "growing instance map against a fresh map with equal contents.",
+    "C02": " Illegal pools hold both sides of every range, neighbouring powers of two, the protocol's special bytes, "
+           "numeric look-alikes (float/Fraction/Decimal/complex equal to an int just used legally) and address objects "
+           "renumbered out of range; coexisting objects of one class, and objects whose destination object is renumbered "
+           "afterwards, keep their own frames; strings are run-time (non-interned) objects.",
+    "C04": " Object lifetime: renumbered objects written and read back, decode results edited by the caller, frames given "
+           "as ForwardFrame / plain Frame / concatenation.",
+    "C05": " Histories include +=, backward-frame constructors, every byte-sequence spelling of initial data (length, "
+           "container, one-shot iterators) and the forward-frame length classes.",
+    "C06": " Also (command, answer 255) pinned to MASK / plain number for the commands the standard defines so, every "
+           "text rendering (repr, format, containers), caller-edited status lists, views after the held frame changed, "
+           "derived accessors against the documented meaning of the byte.",
+    "C07": " The permitted set is handed over as list/tuple/set/iterator/generator/range/dict view; two runs interleaved "
+           "on separate buses.",
+    "C08": " Sequences interleaved on separate buses; caller-edited results; device-type lists of every length.",
+    "C09": " 2-3 sequences of one bank object interleaved on separate buses under generated schedules; histories of "
+           "latch/unlatch/read operations across units.",
+    "C10": " Interleaved write sequences on separate units.",
+    "C11": " Well-formed multi-byte text in every string position; bank images given as list/tuple/bytes/bytearray; "
+           "declaration/import histories in fresh interpreters.",
+    "C12": " One map object growing, corrected, cleared and re-filled; preset dicts shared between mappers; parked and "
+           "caller-edited events; the devicetype argument must not matter for 24-bit frames.",
+    "C13": " Interleaved sequences; discovery into pre-loaded / cleared mappers; address sets as any iterable; widths of "
+           "other enums asked first.",
+    "C14": " Interleaved sequences on separate buses; repeated equal calls with the unit changed in between; look-alike "
+           "arguments after legal use.",
+    "C15": " Also sequences whose cleanup raises, callers started before connect(), several serial frames in one read.",
+    "C16": " Also callers that edit the answers they receive, hasseb idle reports, nothing may be handed to sleep/progress "
+           "items, several serial frames in one read.",
+    "C17": " Also device paths given as glob patterns (node absent, node renamed), silence beginning inside a packet or "
+           "between the two confirmations of a send-twice command, follow-up queries after a cancelled send.",
+    "C18": " UniPi on every bus with wrapping counters; legacy drivers' other packet-producing calls interleaved with sends; "
+           "every status behind a damaged packet.",
+    "C19": " A harness clock advanced between reads, streams of up to 150 repeated frames, several receivers fed "
+           "alternately.",
+    "C20": " Also the gateway lost and back mid-history (with traffic during the new handshake), subscribers whose callback "
+           "raises, repeats of another frame length, an observed serial frame split over two reads with an own send between.",
+}
+for _k, _v in ADDED.items():
+    if _k in CHECKS:
+        CHECKS[_k]["text"] = CHECKS[_k]["text"] + _v
+
+
 def main():
     checks = []
     for pid in ALL:
